@@ -6,50 +6,6 @@ set_option linter.unusedSimpArgs false
 set_option linter.unusedVariables false
 set_option linter.unusedSectionVars false
 
-/-! ### strict sub-terms are smaller -/
-
-mutual
-theorem depth_subterms : (t : T) → ∀ c ∈ subterms t, depth c ≤ depth t
-  | .node cls id items, c, hc => by
-    rw [subterms_node] at hc
-    rcases List.mem_append.mp hc with h | h
-    · have := depth_subtermsItems items c h
-      rw [depth_node]; omega
-    · simp only [List.mem_singleton] at h; subst h; exact Nat.le_refl _
-theorem depth_subtermsItems : (items : List Item) → ∀ c ∈ subtermsItems items, depth c ≤ depthItems items
-  | [], c, hc => by simp [subtermsItems] at hc
-  | .data _ _ :: rest, c, hc => by
-    simp only [subtermsItems] at hc
-    simpa only [depthItems] using depth_subtermsItems rest c hc
-  | .child _ t :: rest, c, hc => by
-    simp only [subtermsItems, List.mem_append] at hc
-    simp only [depthItems]
-    rcases hc with h | h
-    · have := depth_subterms t c h; omega
-    · have := depth_subtermsItems rest c h; omega
-  | .children _ ts :: rest, c, hc => by
-    simp only [subtermsItems, List.mem_append] at hc
-    simp only [depthItems]
-    rcases hc with h | h
-    · have := depth_subtermsList ts c h; omega
-    · have := depth_subtermsItems rest c h; omega
-theorem depth_subtermsList : (ts : List T) → ∀ c ∈ subtermsList ts, depth c ≤ depthList ts
-  | [], c, hc => by simp [subtermsList] at hc
-  | t :: ts, c, hc => by
-    simp only [subtermsList, List.mem_append] at hc
-    simp only [depthList]
-    rcases hc with h | h
-    · have := depth_subterms t c h; omega
-    · have := depth_subtermsList ts c h; omega
-end
-
-theorem strict_ne (t : T) : ∀ s ∈ subtermsItems t.items, s ≠ t := by
-  cases t with
-  | node cls id items =>
-    intro s hs e
-    have := depth_subtermsItems items s hs
-    rw [e, depth_node] at this; omega
-
 /-! ### caches -/
 
 structure GoodCache (F : List T) (c : Cache) : Prop where
